@@ -169,8 +169,13 @@ def run(ctx: Ctx) -> None:
             up, ch = rng.random() < 0.5, rng.random() < 0.5
             lines_d.append(f"dictrt {1 if up else 0} {1 if ch else 0} " + " ".join(recs))
             exp_d.append(" ".join(recs))
+            try:
+                root = SyntaxTreeNode(tokens)
+            except Exception:  # noqa: BLE001  (check_stream has recorded the failure; the tie needs a tree)
+                lines_d.pop()
+                exp_d.pop()
+                continue
             lines_t.append("tree " + " ".join(recs))
-            root = SyntaxTreeNode(tokens)
             wl = []
 
             def walk_top(node):
